@@ -36,7 +36,7 @@ def allRhs : List Rhs := [
   ⟨"term", 11, "a * b"⟩,
   ⟨"factor", 12, "-a"⟩,
   ⟨"power", 13, "a ** b"⟩,
-  ⟨"atom_expr", 14, "d[b]"⟩,
+  ⟨"atom_expr", 14, "t[b]"⟩,
   ⟨"atom", 15, "(a)"⟩,
   ⟨"name", 15, "a"⟩,
   ⟨"number", 15, "1"⟩,
@@ -54,34 +54,34 @@ structure Ctx where
 deriving DecidableEq, Repr
 
 def allCtx : List Ctx := [
-  ⟨"or-first", "or_test", false, 3, "y = X or b"⟩,
-  ⟨"or-later", "or_test", false, 3, "y = b or X"⟩,
-  ⟨"and-first", "and_test", false, 4, "y = X and b"⟩,
-  ⟨"and-later", "and_test", false, 4, "y = b and X"⟩,
+  ⟨"or-first", "or_test", false, 3, "y = X or q"⟩,
+  ⟨"or-later", "or_test", false, 3, "y = q or X"⟩,
+  ⟨"and-first", "and_test", false, 4, "y = X and q"⟩,
+  ⟨"and-later", "and_test", false, 4, "y = q and X"⟩,
   ⟨"not", "not_test", false, 4, "y = not X"⟩,
-  ⟨"cmp-first", "comparison", false, 6, "y = X < b"⟩,
-  ⟨"cmp-later", "comparison", false, 6, "y = b < X"⟩,
-  ⟨"bor-first", "expr", false, 6, "y = X | b"⟩,
-  ⟨"bor-later", "expr", false, 7, "y = b | X"⟩,
-  ⟨"xor-first", "xor_expr", false, 7, "y = X ^ b"⟩,
-  ⟨"xor-later", "xor_expr", false, 8, "y = b ^ X"⟩,
-  ⟨"band-first", "and_expr", false, 8, "y = X & b"⟩,
-  ⟨"band-later", "and_expr", false, 9, "y = b & X"⟩,
-  ⟨"shift-first", "shift_expr", false, 9, "y = X << b"⟩,
-  ⟨"shift-later", "shift_expr", false, 10, "y = b << X"⟩,
-  ⟨"arith-first", "arith_expr", false, 10, "y = X + b"⟩,
-  ⟨"arith-later", "arith_expr", false, 11, "y = b - X"⟩,
-  ⟨"term-first", "term", false, 11, "y = X * b"⟩,
-  ⟨"term-later", "term", false, 12, "y = b * X"⟩,
+  ⟨"cmp-first", "comparison", false, 6, "y = X < q"⟩,
+  ⟨"cmp-later", "comparison", false, 6, "y = q < X"⟩,
+  ⟨"bor-first", "expr", false, 6, "y = X | q"⟩,
+  ⟨"bor-later", "expr", false, 7, "y = q | X"⟩,
+  ⟨"xor-first", "xor_expr", false, 7, "y = X ^ q"⟩,
+  ⟨"xor-later", "xor_expr", false, 8, "y = q ^ X"⟩,
+  ⟨"band-first", "and_expr", false, 8, "y = X & q"⟩,
+  ⟨"band-later", "and_expr", false, 9, "y = q & X"⟩,
+  ⟨"shift-first", "shift_expr", false, 9, "y = X << q"⟩,
+  ⟨"shift-later", "shift_expr", false, 10, "y = q << X"⟩,
+  ⟨"arith-first", "arith_expr", false, 10, "y = X + q"⟩,
+  ⟨"arith-later", "arith_expr", false, 11, "y = q - X"⟩,
+  ⟨"term-first", "term", false, 11, "y = X * q"⟩,
+  ⟨"term-later", "term", false, 12, "y = q * X"⟩,
   ⟨"factor", "factor", false, 12, "y = -X"⟩,
-  ⟨"power-base", "power", false, 14, "y = X ** b"⟩,
-  ⟨"power-exp", "power", false, 12, "y = b ** X"⟩,
+  ⟨"power-base", "power", false, 14, "y = X ** q"⟩,
+  ⟨"power-exp", "power", false, 12, "y = q ** X"⟩,
   ⟨"subscripted", "atom_expr", false, 14, "y = X[0]"⟩,
   ⟨"called", "atom_expr", false, 14, "y = X(1)"⟩,
   ⟨"call-arg", "trailer", false, 0, "y = f(X)"⟩,
   ⟨"call-arg-then", "trailer", true, 0, "y = f(X).real"⟩,
-  ⟨"index", "trailer", false, -1, "y = d[X]"⟩,
-  ⟨"index-then", "trailer", true, -1, "y = d[X].real"⟩,
+  ⟨"index", "trailer", false, -1, "y = s[X]"⟩,
+  ⟨"index-then", "trailer", true, -1, "y = s[X].real"⟩,
   ⟨"arglist", "arglist", false, 0, "y = f(X, 1)"⟩,
   ⟨"kwarg", "argument", false, 0, "y = f(k=X)"⟩,
   ⟨"star-arg", "argument", false, 0, "y = f(*X)"⟩,
@@ -90,12 +90,12 @@ def allCtx : List Ctx := [
   ⟨"dict-dstar", "dictorsetmaker", false, 6, "y = {**X}"⟩,
   ⟨"dict-key", "dictorsetmaker", false, 0, "y = {X: 1}"⟩,
   ⟨"dict-value", "dictorsetmaker", false, 0, "y = {1: X}"⟩,
-  ⟨"ternary-value", "test", false, 2, "y = X if b else c"⟩,
-  ⟨"ternary-cond", "test", false, 2, "y = b if X else c"⟩,
-  ⟨"ternary-else", "test", false, 0, "y = b if c else X"⟩,
+  ⟨"ternary-value", "test", false, 2, "y = X if q else r"⟩,
+  ⟨"ternary-cond", "test", false, 2, "y = q if X else r"⟩,
+  ⟨"ternary-else", "test", false, 0, "y = q if r else X"⟩,
   ⟨"lambda-body", "lambdef", false, 0, "y = lambda: X"⟩,
   ⟨"comp-iter", "sync_comp_for", false, 2, "y = [v for v in X]"⟩,
-  ⟨"comp-if", "comp_if", false, 2, "y = [v for v in d if X]"⟩,
+  ⟨"comp-if", "comp_if", false, 2, "y = [v for v in s if X]"⟩,
   ⟨"list-elem", "testlist_comp", false, 0, "y = [X, 1]"⟩,
   ⟨"tuple-elem", "testlist_comp", false, 0, "y = (X, 1)"⟩,
   ⟨"bare-tuple-elem", "testlist_star_expr", false, 0, "y = X, 1"⟩,
@@ -106,9 +106,9 @@ def allCtx : List Ctx := [
   ⟨"if", "if_stmt", false, 0, "if X: pass"⟩,
   ⟨"while", "while_stmt", false, 0, "while X: pass"⟩,
   ⟨"for-iter", "for_stmt", false, -1, "for v in X: pass"⟩,
-  ⟨"slice", "subscript", false, 0, "y = d[X:1]"⟩,
-  ⟨"index-list", "subscriptlist", false, 0, "y = d[X, 1]"⟩,
-  ⟨"default", "param", false, 0, "def g(p=X): pass"⟩,
+  ⟨"slice", "subscript", false, 0, "y = s[X:1]"⟩,
+  ⟨"index-list", "subscriptlist", false, 0, "y = s[X, 1]"⟩,
+  ⟨"default", "param", false, 0, "def g(u=X): pass"⟩,
   ⟨"assert", "assert_stmt", false, 0, "assert X"⟩,
   ⟨"with", "with_item", false, 0, "with X as y: pass"⟩,
   ⟨"return", "return_stmt", false, -1, "def g():\n    return X"⟩]
